@@ -780,10 +780,12 @@ pub mod serde {
     pub trait Deserialize<'de>: Sized { fn deserialize<D: Deserializer<'de>>(deserializer: D) -> Result<Self, D::Error>; }
     pub trait Serialize { fn serialize<S: Serializer>(&self, serializer: S) -> Result<S::Ok, S::Error>; }
     impl<'de, L: ArrayLength<u8>> Deserialize<'de> for GenericArray<u8, L> {
-        /// generic-array's serde impl: reads exactly L bytes or fails
+        /// generic-array's serde impl: reads exactly L bytes or fails (a slot that was written as an array of another length is not read back:
+        /// "invalid length" in a self-describing format, a misaligned read in bincode)
         #[verifier::external_body]
         fn deserialize<D: Deserializer<'de>>(deserializer: D) -> (r: Result<Self, D::Error>)
-            ensures r is Ok ==> r->Ok_0@ == deserializer.payload()
+            ensures r is Ok ==> r->Ok_0@ == deserializer.payload(),
+                    r is Ok <==> deserializer.payload().len() == L::n(),
         { unimplemented!() }
     }
     impl<L: ArrayLength<u8>> Serialize for GenericArray<u8, L> {
